@@ -24,7 +24,9 @@ Payloads == { <<"LT", "b", "GT">>, <<"AMP", "APOS", "QUOT", "PLAIN">>, <<"AMP", 
               <<"u", "PCT", "GT", "LT", "s", "GT">> }
 
 Starts == {"lit", "bqlit", "ctxstr", "ctxhtml", "htmler", "rawlit", "rawctx", "field", "htmlfield", "mapel", "strsel", "anyel", "helper", "strs", "anys",
-           "strsloop", "htmlsloop", "anysloop", "maploop", "htmlerstringer"}
+           "strsloop", "htmlsloop", "anysloop", "maploop", "htmlerstringer",
+           \* a value of a DEFINED string type (type Role string): what it prints is not specified here -- but never its characters raw
+           "definedstr"}
 Trusted(s) == s \in {"ctxhtml", "htmler", "rawlit", "rawctx", "htmlfield", "htmlsloop", "htmlerstringer"}
 \* starts where the payload is the loop variable of a for over a typed Go collection of the context:
 \* the whole route (steps and sink) then sits in that loop's body
@@ -37,6 +39,7 @@ StartExpr(s, P) ==
     [] s = "ctxhtml" -> Id("h")
     [] s = "htmler"  -> Id("hr")
     [] s = "htmlerstringer" -> Id("hrs")              \* a value that is an HTMLer AND a fmt.Stringer (with other text)
+    [] s = "definedstr" -> Id("ds")
     [] s = "rawlit"  -> Call("raw", <<Str(P)>>)
     [] s = "rawctx"  -> Call("raw", <<Id("s")>>)
     [] s = "field"   -> Dot(Id("u"), "Name")
@@ -49,7 +52,7 @@ StartExpr(s, P) ==
     [] s = "anys"    -> Id("ys")
     [] OTHER         -> Id("w")                        \* the loop variable (LoopOver)
 
-DataFor(P) == [s |-> S(P), h |-> H(P), h2 |-> H(<<"LT", "i", "GT">>), hr |-> HTMLer(P), hrs |-> [t |-> "html", s |-> P, go |-> "htmlerstringer"],
+DataFor(P) == [ds |-> [t |-> "opq", kind |-> "defined_str", s |-> P], s |-> S(P), h |-> H(P), h2 |-> H(<<"LT", "i", "GT">>), hr |-> HTMLer(P), hrs |-> [t |-> "html", s |-> P, go |-> "htmlerstringer"],
                hs2 |-> AT(<<H(<<"o", "l", "d">>)>>, "htmls"), hm |-> [t |-> "map", m |-> [k |-> H(<<"o", "l", "d">>)], go |-> "htmlmap"], u |-> Rec([Name |-> S(P), Html |-> H(P)]),
                m |-> M([k |-> S(P)]), xs |-> AT(<<S(P)>>, "strs"), ys |-> A(<<S(P)>>), hs |-> AT(<<H(P)>>, "htmls")]
 
@@ -81,7 +84,9 @@ ApplyStep(st, i, e) ==
     [] st = "sethtmlmap" -> [pre |-> <<Code(IdxAssign(Id("hm"), Str(<<"k">>), e))>>, e |-> Idx(Id("hm"), Str(<<"k">>))]
 
 Sinks == {"top", "for", "if", "else", "fn", "blk", "blkown", "cfor", "cofdata", "cofdefault", "partial", "nested", "layout", "forfn",
-          "blk0", "blkown0", "cfor0", "cofdata0", "cofdefault0", "fn0", "partial0"}
+          "blk0", "blkown0", "cfor0", "cofdata0", "cofdefault0", "fn0", "partial0",
+          \* the block is left through a return of the carrier (alone, and after a condition)
+          "blkret", "cforret", "cofdefaultret"}
 Sink(k, e) ==
   CASE k = "top"     -> [prog |-> <<Emit(e)>>, parts |-> EmptyScope]
     [] k = "for"     -> [prog |-> <<Emit(For("", "w", Arr(<<e>>), <<Text(<<"(">>), Emit(Id("w")), Text(<<")">>)>>))>>, parts |-> EmptyScope]
@@ -100,6 +105,9 @@ Sink(k, e) ==
     [] k = "cfor0"   -> [prog |-> <<Code(CallB("contentFor", <<Str(<<"c">>)>>, <<Emit(e)>>)), Emit(Call("contentOf", <<Str(<<"c">>)>>))>>, parts |-> EmptyScope]
     [] k = "cofdata0" -> [prog |-> <<Code(CallB("contentFor", <<Str(<<"c">>)>>, <<Emit(Id("d"))>>)), Emit(Call("contentOf", <<Str(<<"c">>), Hash(<<"d">>, <<e>>)>>))>>, parts |-> EmptyScope]
     [] k = "cofdefault0" -> [prog |-> <<Emit(CallB("contentOf", <<Str(<<"n">>), Hash(<<"d">>, <<e>>)>>, <<Emit(Id("d"))>>))>>, parts |-> EmptyScope]
+    [] k = "blkret"  -> [prog |-> <<Emit(CallB("blk", <<>>, <<Ret(e)>>))>>, parts |-> EmptyScope]
+    [] k = "cforret" -> [prog |-> <<Code(CallB("contentFor", <<Str(<<"c">>)>>, <<Code(If(Bool(FALSE), <<Ret(Str(<<"x">>))>>)), Ret(e)>>)), Emit(Call("contentOf", <<Str(<<"c">>)>>))>>, parts |-> EmptyScope]
+    [] k = "cofdefaultret" -> [prog |-> <<Emit(CallB("contentOf", <<Str(<<"n">>), Hash(<<"d">>, <<e>>)>>, <<Ret(Id("d"))>>))>>, parts |-> EmptyScope]
     [] k = "fn0"     -> [prog |-> <<Let("g", FnLit(<<>>, <<Emit(e)>>)), Emit(Call("g", <<>>))>>, parts |-> EmptyScope]
     [] k = "partial0" -> [prog |-> <<Emit(Call("partial", <<Str(<<"p">>), Hash(<<"d">>, <<e>>)>>))>>, parts |-> [p |-> <<Emit(Id("d"))>>]]
     [] k = "partial" -> [prog |-> <<Emit(Call("partial", <<Str(<<"p">>), Hash(<<"d">>, <<e>>)>>))>>, parts |-> [p |-> <<Text(<<"(">>), Emit(Id("d")), Text(<<")">>)>>]]
